@@ -11,7 +11,9 @@ resource; no size bound.
 
 The queries against the abstract content (`Spec.stringsOf`, `valueOf`, `stringMapsOf`, …) and the
 round trips for every documented layout (`Spec.VInfo.IsBlock`, not only the reference writer's image)
-are in `Thm/C13Queries.lean`.
+are in `Thm/C13Queries.lean`; the source-code rendering against the abstract content (`Spec.sourceOf`),
+visitors that decline blocks / string tables, and the byte-counting value length of strings are in
+`Thm/C13Source.lean`.
 
 (a) round trip      C13_round_trip, C13_writer_emits_u16, C13_strings_exactly_once, C13_fixed_round_trip, C13_translation_round_trip
 (b) one event list  C13_visit_is_fold_of_events, C13_queries_are_folds, C13_source_renders_every_event,
